@@ -436,6 +436,9 @@ func vpNewWorld(cfg *vpCfg) (*vpWorld, error) {
 			upCfgs = append(upCfgs, options.Upstream{ID: u.ID, Path: u.Path, URI: "file://" + dir})
 		}
 	}
+	if structuredUp || cfg.ProxyRawPath {
+		legacyUps = []string{"static://200"} // placeholder: the structured list replaces it below
+	}
 	lo.LegacyUpstreams.Upstreams = legacyUps
 	if cfg.PassHost != nil {
 		lo.LegacyUpstreams.PassHostHeader = *cfg.PassHost
